@@ -252,6 +252,11 @@ def run(pid, tier):
                          "auto": {}, "alien": {"3": True}, "sched": [1] * 14 + [3] * k + [1] * 30 + [3] * 300, "tail": "seq", "seed": k})
         pre, preempt_total = preempt_runs(drv, sc, rng, 900 if tier == "quick" else 10 ** 6, pid, tier == "thorough")
         runs += pre
+        # error paths: every filesystem call of every call kind fails once with an injected I/O error (+ random runs with one fault)
+        flt, fault_total = fault_runs(drv, sc, rng, 800 if tier == "quick" else 10 ** 6)
+        runs += flt
+        for i in range(nr // 3):
+            runs.append(P.random_run(rng, "rf%d" % i, fault=True, weights=WEIGHTS.get(pid)))
         crash_total, crash_complete = 0, None
         if pid == "C06":
             cr, crash_total, crash_complete = crash_runs(drv, sc, rng, nc)
@@ -273,8 +278,9 @@ def run(pid, tier):
         th.join()
 
         # ---- verdicts
-        mine = [v for v in viols if v[0] in P.PROP_INVS[pid]]
-        others = [v for v in viols if v[0] not in P.PROP_INVS[pid]]
+        # (runs with an injected I/O fault are judged by the predicates that hold on error paths too)
+        mine = [v for v in viols if v[0] in P.PROP_INVS[pid] and (not runbyid[v[1]].get("fault") or v[0] in FAULT_INVS)]
+        others = [v for v in viols if v not in mine]
         out_lines, nviol, seen_known = [], 0, set()
         bysig = collections.OrderedDict()
         for inv, tid, line in mine:
@@ -366,6 +372,7 @@ def run(pid, tier):
             code_driven_runs=len(outs) - nwalks, crash_runs=len([r for r in runs if r.get("crash")]),
             crash_points_total=crash_total, crash_enumeration_complete=crash_complete,
             single_preemption_runs=len(pre), single_preemption_space=preempt_total,
+            fault_injection_runs=len([r for r in runs if r.get("fault")]), fault_points_total=fault_total,
             events_validated=vstats["events"], trace_states=vstats["states"],
             model_actions_replayed=dict(actcount),
             invariants=P.PROP_INVS[pid], other_invariant_violations=len(others), specification_mutants=selftests,
@@ -510,6 +517,63 @@ def crash_runs(drv, sc, rng, n):
         rng.shuffle(runs)
         return runs[:n], total, False
     return runs, total, True
+
+
+# predicates that must hold in executions with injected I/O faults as well (what an error path may never do); left out: the
+# clauses that an I/O error makes unattainable (an Add that fails in the reload AFTER its commit point; Clean / Close that
+# report the error; "only lock failures")
+FAULT_INVS = ["C04_NoLostNoPhantom", "C04_AckedIsCommitted", "C04_OneAtATime", "C04_FinalView", "C05_ListIntegrity", "C05_NoGc", "C06_Atomic",
+              "C08_OwnerOnly", "C09_StaleNeverCommits", "C10_OneVersion", "C10_Readable", "C10_Content", "C10_Terminates",
+              "C16_IdleOwnsNothing", "C16_QuiescentDir"]
+
+
+def fault_runs(drv, sc, rng, n):
+    """Fault enumeration on the error paths: for every call kind x initial stack x situation (alone / while another handle is in
+    the middle of an Add and holds tables.list.lock / while another handle is in the merge window of a compaction and holds the
+    table locks), a dry run tells which filesystem calls handle 1 makes; then one run per call that can fail with an I/O error
+    (open, read, create, temp file, write, rename - not remove, not close): that call is NOT performed and returns EIO.
+    Handle 1 then goes on (a reload, an Add), handle 2 finishes, a fresh handle looks at the result.
+    Returns (runs, total number of fault points)."""
+    scen = []
+    for s in crash_scenarios():
+        initn = len(s["init"])
+        for variant in ("alone", "lockheld", "merging"):
+            if variant == "merging" and initn < 2:
+                continue
+            tg = P.TxnGen(random.Random(len(scen) * 13 + 5), start=300)
+            r = dict(s)
+            r["id"] = "f%s-%s" % (s["id"][1:], variant)
+            r["progs"] = {"1": list(s["progs"]["1"]) + [{"op": "reload"}, tg.add(), {"op": "clean"}],
+                          "2": [tg.add() if variant != "merging" else {"op": "compactall"}, tg.add(), {"op": "reload"}]}
+            k2 = {"alone": 0, "lockheld": 3, "merging": 4 + initn}[variant]     # call, createexcl, readfile [, table locks, remove(list lock)]
+            r["sched"] = [2] * k2 + [1] * 400 + [2] * 400
+            r["pre2"] = k2
+            scen.append(r)
+    dry = P.run_driver(drv, scen, sc)
+    runs = []
+    for s, o in zip(scen, dry):
+        evs = [e for e in o["events"] if e["h"] == 1 and e["ev"] in ("fs", "call") and not (e["ev"] == "fs" and e["op"] == "close")]
+        k = 0
+        for e in evs:
+            if e is evs[0] and e["ev"] == "call" and e["op"] == "open":
+                continue            # set-up open (sequential, not gated)
+            if e["ev"] == "fs" and k == 0:
+                continue            # filesystem calls of the set-up open
+            k += 1
+            if e["ev"] == "fs" and e["op"] in ("createexcl", "open", "tempfile", "rename", "readfile", "readdir", "write"):
+                r = dict(s)
+                r["id"] = "%s-k%d" % (s["id"], k)
+                r["fault"] = [{"h": 1, "before": k}]
+                runs.append(r)
+    total = len(runs)
+    if n < total:
+        keep = [r for r in runs if "-alone-" not in r["id"]]
+        rest = [r for r in runs if "-alone-" in r["id"]]
+        rnd = random.Random(rng.random())
+        if len(keep) > n * 2 // 3:
+            keep = rnd.sample(keep, n * 2 // 3)
+        runs = keep + rnd.sample(rest, min(len(rest), n - len(keep)))
+    return runs, total
 
 
 def replay(pid, path):
